@@ -207,5 +207,5 @@ def _inside_async(tree, node):
 
 def specs(tier):
     if tier == 'thorough':
-        return [DumpSpec('dump-len2', 2, 99), DumpSpec('dump-len3', 3, 4, min_items=3)]
+        return [DumpSpec('dump-len2', 2, 99), DumpSpec('dump-len3', 3, 3, min_items=3)]
     return [DumpSpec('dump-len2', 2, 3), DumpSpec('dump-len3', 3, 2, min_items=3)]
